@@ -204,6 +204,25 @@ def execute(acc, case):
                                   dict(wit, blocked=s.blocked_report()))
                     return
                 acc.counters["consumer_returned"] += 1
+            # ---------------- what came in before the end may still be fetched; after that get_message() says "over" - it never blocks
+            if cause not in ("refused", "socket-error", "connect-error") and node._association is not None:
+                drained = {"n": 0, "done": False}
+
+                def drain():
+                    for _ in range(40):
+                        if node.get_message() is None:
+                            break
+                        drained["n"] += 1
+                    drained["done"] = True
+                s.spawn("consumer", drain)      # named like the consumer: it is the application's thread, not the node's
+                s.run_until(lambda: drained["done"], 10.0, "drain-after-close")
+                if not drained["done"]:
+                    acc.violation("get-message-after-the-end-never-returns:%s" % cause, "after %s the application fetched %d queued message(s); its next get_message() call is still blocked: %s" % (
+                        tag, drained["n"], s.blocked_report()), dict(wit, fetched=drained["n"], blocked=s.blocked_report()))
+                    return
+                acc.counters["drained_after_the_end"] += 1
+                if drained["n"]:
+                    acc.counters["messages_fetched_after_the_end"] += drained["n"]
             # ---------------- restart on the same object
             sc.peer_sock = sc.node_sock = None
             sc.net.write_len = None
@@ -316,7 +335,7 @@ def main(tier, seed):
                           ["bounds are on the virtual clock (60 s) and the step counter; a wall-clock watchdog firing is inconclusive",
                            "refused connection follows Linux semantics observed on the real loopback: first send() raises ConnectionRefusedError, later ones BrokenPipeError",
                            "combinations the statement does not reach (close() before Open is a no-op, DPR outside Open) are left to C06's soft cells"],
-                          t0, extra_cov={"cells": cells}, require_counters=("executions", "restarts_ok", "consumer_returned", "real_loopback_ok", "twin_node_executions", "other_node_still_working", "setup_failures_injected"))
+                          t0, extra_cov={"cells": cells}, require_counters=("executions", "restarts_ok", "consumer_returned", "real_loopback_ok", "twin_node_executions", "other_node_still_working", "setup_failures_injected", "drained_after_the_end"))
 
 
 def replay(w):
